@@ -1,5 +1,244 @@
-import StraxModel.Model.Basic
+import StraxModel.Lemmas.Components
+import StraxModel.Generated.ShouldSave
+/-
+  C11 — only what is missing is computed, and only what policy allows is saved.
+
+  All theorems are about `Strax.Components.getComponents` (model of `Context.get_components`) and hold for
+  EVERY graph, stored state, target / save choice, modifier and context option for which the function returns
+  normally — no hypothesis on the graph is needed for them: the `seen` guard makes the traversal well defined
+  even on cyclic graphs.  Acyclicity (decidable witness `topoOrdered`: the list order is a topological order)
+  is only needed for `acyclic_no_recursion_error`: the recursion bound of the model is never hit.
+  `Reach env t` = "t lies on a path from a target down to the nearest stored (loadable) types".
+-/
 namespace Strax.C11
-open Strax
+open Strax Strax.Components
+
+/-! ### the translator output equals the model (re-proved on every run against the current source) -/
+
+theorem gen_eq_model : Generated.shouldSave = Components.shouldSave := by
+  funext pol t s
+  cases pol <;> cases t <;> cases s <;> rfl
+
+theorem gen_values_eq_model : Generated.saveWhenValue = SaveWhen.toNat := by
+  funext p
+  cases p <;> rfl
+
+/-! ### the save policy table -/
+
+/-- what the property says about the four policies -/
+def policySays (pol : SaveWhen) (isTarget inSave : Bool) : Bool :=
+  match pol with
+  | .always => true
+  | .target => isTarget
+  | .explicit => inSave
+  | .never => false
+
+/-- `_target_should_be_saved` over its whole (finite) domain: NEVER × listed in `save` is an error,
+everything else is the policy table -/
+theorem shouldSave_table : ∀ (pol : SaveWhen) (isTarget inSave : Bool),
+    shouldSave pol isTarget inSave =
+      if pol = .never ∧ inSave = true then .error .valueError else .ok (policySays pol isTarget inSave) := by
+  intro pol isTarget inSave
+  cases pol <;> cases isTarget <;> cases inSave <;> rfl
+
+/-- output `d` of plugin `p` is to be saved according to its policy, the targets and the `save` argument -/
+def PolicySaves (env : Env) (p : Plugin) (d : String) : Prop :=
+  ∃ pol, p.policy d = some pol ∧ policySays pol ((finalTargets env).contains d) (env.save.contains d) = true
+
+/-- lifting lemma: the call made by the traversal says "save" exactly when the table does -/
+theorem shouldSaveFor_true_iff (env : Env) (p : Plugin) (d : String) :
+    shouldSaveFor env p d = .ok true ↔ PolicySaves env p d := by
+  unfold shouldSaveFor PolicySaves
+  cases hpol : p.policy d with
+  | none => simp
+  | some pol =>
+    simp only [Option.some.injEq, exists_eq_left']
+    rw [shouldSave_table]
+    cases pol <;> cases (finalTargets env).contains d <;> cases env.save.contains d <;> simp [policySays]
+
+/-! ### what is computed, what is loaded -/
+
+/-- A data type is computed iff it is needed (on a path from the targets down to the nearest stored types)
+and not itself stored. -/
+theorem computed_iff {env : Env} {c : Components} (h : getComponents env = .ok c) (t : String) :
+    t ∈ c.plugins ↔ Reach env t ∧ loadable env t = false := by
+  obtain ⟨st, _, hp, _, hinv, _, hseen⟩ := getComponents_spec h
+  rw [hp, hinv.comp t, hseen t]
+
+/-- Everything else that is needed is loaded, from the first frontend (fastest storage type first, then
+context order) that has it. -/
+theorem loaded_iff {env : Env} {c : Components} (h : getComponents env = .ok c) (t : String) (i : Nat) :
+    (t, i) ∈ c.loaders ↔ Reach env t ∧ loaderFor env t = some i := by
+  obtain ⟨st, hl, _, _, hinv, _, hseen⟩ := getComponents_spec h
+  rw [hl, hinv.load t i, hseen t]
+
+/-- plugin `p` has to run: one of the data types it is registered for is on the compute list -/
+def Runs (env : Env) (c : Components) (p : Plugin) : Prop :=
+  ∃ o ∈ p.provides, pluginFor env.g o = some p ∧ o ∈ c.plugins
+
+/-- The property's wording at plugin level: a plugin runs iff one of its outputs lies on a path from the
+targets down to the nearest stored types and is not itself stored. -/
+theorem plugin_runs_iff {env : Env} {c : Components} (h : getComponents env = .ok c) (p : Plugin) :
+    Runs env c p ↔ ∃ o ∈ p.provides, pluginFor env.g o = some p ∧ Reach env o ∧ loadable env o = false := by
+  unfold Runs
+  constructor
+  · rintro ⟨o, ho, hp, hc⟩; exact ⟨o, ho, hp, (computed_iff h o).1 hc⟩
+  · rintro ⟨o, ho, hp, hc⟩; exact ⟨o, ho, hp, (computed_iff h o).2 hc⟩
+
+/-- Every needed data type has exactly one origin: either a loader or a plugin, never both, never none. -/
+theorem one_origin {env : Env} {c : Components} (h : getComponents env = .ok c) (t : String)
+    (hr : Reach env t) :
+    (t ∈ c.plugins ∧ t ∉ c.loaders.map (·.1)) ∨ (t ∉ c.plugins ∧ t ∈ c.loaders.map (·.1)) := by
+  have hmem : ∀ t, t ∈ c.loaders.map (·.1) ↔ ∃ i, (t, i) ∈ c.loaders := by
+    intro t
+    simp only [List.mem_map]
+    constructor
+    · rintro ⟨⟨u, i⟩, he, rfl⟩; exact ⟨i, he⟩
+    · rintro ⟨i, he⟩; exact ⟨(t, i), he, rfl⟩
+  cases hl : loaderFor env t with
+  | none =>
+    left
+    refine ⟨(computed_iff h t).2 ⟨hr, not_loadable_of_loaderFor hl⟩, fun hc => ?_⟩
+    obtain ⟨i, hi⟩ := (hmem t).1 hc
+    have := ((loaded_iff h t i).1 hi).2
+    rw [hl] at this; cases this
+  | some i =>
+    right
+    refine ⟨fun hc => ?_, (hmem t).2 ⟨i, (loaded_iff h t i).2 ⟨hr, hl⟩⟩⟩
+    have := ((computed_iff h t).1 hc).2
+    rw [loadable_of_loaderFor hl] at this; cases this
+
+/-- ... and exactly once: no data type is listed twice among the plugins or among the loaders, and no data
+type is listed in both (the `both computed and loaded?!` RuntimeError of `get_components` is unreachable). -/
+theorem origins_unique {env : Env} {c : Components} (h : getComponents env = .ok c) :
+    c.plugins.Nodup ∧ (c.loaders.map (·.1)).Nodup ∧ ∀ t, ¬ (t ∈ c.plugins ∧ t ∈ c.loaders.map (·.1)) := by
+  obtain ⟨st, hl, hp, _, hinv, _, _⟩ := getComponents_spec h
+  refine ⟨hp ▸ hinv.comp_nodup, hl ▸ hinv.load_nodup, ?_⟩
+  rintro t ⟨hc, hld⟩
+  rw [hp] at hc; rw [hl] at hld
+  simp only [List.mem_map] at hld
+  obtain ⟨⟨u, i⟩, he, rfl⟩ := hld
+  have h1 := ((hinv.comp u).1 hc).2
+  have h2 := ((hinv.load u i).1 he).2
+  rw [loadable_of_loaderFor h2] at h1; cases h1
+
+/-! ### what is saved -/
+
+/-- For a complete (not partial / fuzzy / incomplete-tolerant) request, a data type gets a saver iff it is an
+output of a plugin that runs for a non-temporary computed type, is not itself stored, its policy says so
+(table over SaveWhen × is-target × in-save), and some writable frontend accepts it. -/
+theorem savers_iff_policy {env : Env} {c : Components} (h : getComponents env = .ok c)
+    (hp : env.partialReq = false) (d : String) :
+    d ∈ c.savers.map (·.1) ↔
+      ∃ u ∈ c.plugins, isTemp u = false ∧ ∃ p, pluginFor env.g u = some p ∧ d ∈ p.provides ∧
+        loadable env d = false ∧ PolicySaves env p d ∧ writableFor env d ≠ [] := by
+  obtain ⟨st, _, hpl, hs, hinv, hstep, _⟩ := getComponents_spec h
+  rw [hs, hstep.savers hp d, hpl]
+  simp only [List.map_nil, List.not_mem_nil, false_or, not_false_eq_true, true_and]
+  constructor
+  · rintro ⟨u, hu, hl, ht, p, hpf, hd, hld, hsh, hw⟩
+    exact ⟨u, (hinv.comp u).2 ⟨hu, hl⟩, ht, p, hpf, hd, hld, (shouldSaveFor_true_iff env p d).1 hsh, hw⟩
+  · rintro ⟨u, hu, ht, p, hpf, hd, hld, hsh, hw⟩
+    obtain ⟨hus, hl⟩ := (hinv.comp u).1 hu
+    exact ⟨u, hus, hl, ht, p, hpf, hd, hld, (shouldSaveFor_true_iff env p d).2 hsh, hw⟩
+
+/-- Where it is saved: in every writable frontend that accepts the type (fastest first), at most one entry
+per data type. -/
+theorem savers_where {env : Env} {c : Components} (h : getComponents env = .ok c) :
+    (∀ e ∈ c.savers, e.2 = writableFor env e.1 ∧ e.2 ≠ []) ∧ (c.savers.map (·.1)).Nodup := by
+  obtain ⟨st, _, _, hs, hinv, _, _⟩ := getComponents_spec h
+  rw [hs]; exact hinv.sav
+
+/-- A partial request (time range, selection, column projection), a fuzzy one or one tolerant of incomplete
+data never saves anything. -/
+theorem partial_never_saves {env : Env} {c : Components} (h : getComponents env = .ok c)
+    (hp : env.partialReq = true) : c.savers = [] := by
+  obtain ⟨st, _, _, hs, _, hstep, _⟩ := getComponents_spec h
+  rw [hs, hstep.savers_partial hp]
+
+/-! ### explicit errors -/
+
+/-- A needed, not stored data type whose creation is forbidden by the context (`forbid_creation_of` lists it
+or `*`; `starForbids` = `*` is listed and applies to this type), or that is always / as-target saved while a time range is requested, makes the request fail instead
+of being computed. -/
+theorem forbidden_raises {env : Env} {t : String} (hr : Reach env t) (hl : loadable env t = false)
+    (hf : starForbids env t = true ∨ env.opts.forbid.contains t = true ∨
+      (env.mods.timeRange = true ∧ ∃ p pol, pluginFor env.g t = some p ∧ p.policy t = some pol ∧
+        pol.toNat > SaveWhen.explicit.toNat)) :
+    ∃ e, getComponents env = .error e := by
+  cases hc : getComponents env with
+  | error e => exact ⟨e, rfl⟩
+  | ok c =>
+    exfalso
+    obtain ⟨st, _, _, _, _, hstep, hseen⟩ := getComponents_spec hc
+    obtain ⟨p, pol, hp, hpol, h1, h2, h3, _⟩ := hstep.good t ((hseen t).2 hr) (by simp) hl
+    rcases hf with hf | hf | ⟨htr, p', pol', hp', hpol', hgt⟩
+    · rw [h1] at hf; cases hf
+    · rw [h2] at hf; cases hf
+    · rw [hp] at hp'; cases hp'
+      rw [hpol] at hpol'; cases hpol'
+      exact h3 ⟨htr, hgt⟩
+
+/-- Asking to save (`save=`) a needed, not stored, non-temporary data type whose policy is NEVER makes the
+request fail. -/
+theorem never_save_in_save_raises {env : Env} {t : String} {p : Plugin} (hr : Reach env t)
+    (hl : loadable env t = false) (ht : isTemp t = false) (hp : pluginFor env.g t = some p)
+    (hpol : p.policy t = some .never) (hs : env.save.contains t = true) :
+    ∃ e, getComponents env = .error e := by
+  cases hc : getComponents env with
+  | error e => exact ⟨e, rfl⟩
+  | ok c =>
+    exfalso
+    obtain ⟨st, _, _, _, _, hstep, hseen⟩ := getComponents_spec hc
+    obtain ⟨p', pol, hp', _, _, _, _, hnev⟩ := hstep.good t ((hseen t).2 hr) (by simp) hl
+    rw [hp] at hp'; cases hp'
+    obtain ⟨b, hb⟩ := hnev ht
+    have hs' : t ∈ env.save := by simpa using hs
+    simp [shouldSaveFor, hpol, shouldSave, hs'] at hb
+
+/-! ### the recursion bound of the model -/
+
+/-- On acyclic graphs (decidable witness: the list order is a topological order) the model never reports the
+RecursionError that stands for an unbounded recursion, and the `both computed and loaded?!` RuntimeError is
+unreachable: `getComponents` never ends in a RuntimeError. -/
+theorem acyclic_no_recursion_error (env : Env) (h : topoOrdered env.g = true) :
+    getComponents env ≠ .error .runtimeError :=
+  getComponents_no_rt h
+
+/-! ### non-vacuity: concrete instances of the hypotheses and of both outcomes -/
+
+/-- source `aa` (ALWAYS) ← multi-output (`bb` TARGET, `cc` EXPLICIT) ← `dd` (NEVER) -/
+def exGraph : Graph :=
+  [⟨[("aa", .always)], []⟩, ⟨[("bb", .target), ("cc", .explicit)], ["aa"]⟩, ⟨[("dd", .never)], ["bb"]⟩]
+
+/-- `aa` is stored in the only frontend, `dd` is requested, `cc` is listed in `save=` -/
+def exEnv : Env := ⟨exGraph, [{ complete := ["aa"] }], ["dd"], ["cc"], {}, {}, {}⟩
+
+example : topoOrdered exGraph = true := by decide
+example : exEnv.partialReq = false := by decide
+/-- `aa` is loaded, `dd` and `bb` are computed, the not needed sibling `cc` is saved because it is listed -/
+example : getComponents exEnv = .ok ⟨[("aa", 0)], ["dd", "bb"], [("cc", [0])], ["dd"]⟩ := by rfl
+example : Reach exEnv "aa" :=
+  .dep (t := "bb") (p := ⟨[("bb", .target), ("cc", .explicit)], ["aa"]⟩)
+    (.dep (t := "dd") (p := ⟨[("dd", .never)], ["bb"]⟩) (.target (by decide)) (by decide) (by decide) (by decide))
+    (by decide) (by decide) (by decide)
+example : loadable exEnv "bb" = false ∧ loadable exEnv "aa" = true := by decide
+/-- a time-range request is partial: the same request saves nothing -/
+example : getComponents { exEnv with mods := { selection := true } } = .ok ⟨[("aa", 0)], ["dd", "bb"], [], ["dd"]⟩ := by rfl
+/-- hypotheses of `forbidden_raises` and the error it predicts -/
+example : loadable exEnv "bb" = false ∧ ({ exEnv with opts := { forbid := ["bb"] } } : Env).opts.forbid.contains "bb" = true := by
+  decide
+example : getComponents { exEnv with opts := { forbid := ["bb"] } } = .error .dataNotAvailable := by rfl
+/-- hypotheses of `never_save_in_save_raises` and the error it predicts -/
+example : isTemp "dd" = false ∧ (⟨[("dd", .never)], ["bb"]⟩ : Plugin).policy "dd" = some .never := by decide
+example : getComponents { exEnv with save := ["dd"] } = .error .valueError := by rfl
+/-- two frontends: the faster storage type is asked first, the readonly one gets no saver -/
+example : getComponents ⟨exGraph, [{ complete := ["aa"], storageType := 2 }, { complete := ["aa", "bb"], readonly := true }],
+    ["dd"], ["cc"], {}, {}, {}⟩ = .ok ⟨[("bb", 1)], ["dd"], [], ["dd"]⟩ := by rfl
+/-- the temporary merge plugin under both values of the `_temp_` rules (D22): `bb` is a TARGET-policy target -/
+example : getComponents ⟨exGraph ++ [⟨[("_temp_x", .explicit)], ["bb", "dd"]⟩], [{ complete := ["aa"] }], ["_temp_x"], [], {}, {},
+    { tempDepsAreTargets := false }⟩ = .ok ⟨[("aa", 0)], ["_temp_x", "bb", "dd"], [], ["_temp_x"]⟩ := by rfl
+example : getComponents ⟨exGraph ++ [⟨[("_temp_x", .explicit)], ["bb", "dd"]⟩], [{ complete := ["aa"] }], ["_temp_x"], [], {}, {},
+    { tempDepsAreTargets := true }⟩ = .ok ⟨[("aa", 0)], ["_temp_x", "bb", "dd"], [("bb", [0])], ["_temp_x"]⟩ := by rfl
 
 end Strax.C11
